@@ -58,6 +58,20 @@ def special_cases(rng):
             out.append(X.Case(s, [tw], pipes.build(s, {"d1": tw})))
         except Exception:
             pass
+    # joins on differently named key pairs where a name is a key on BOTH sides without being paired with itself (crossed / chained
+    # pairs), where the left key name is a non-key column of the right side, and mixed same-named + renamed keys: the executors'
+    # suffixed copies of the right-hand columns must all be folded back
+    ta = pipes.gen_table(rng, "d1", ncols=3, colnames=["a", "b", "x"], types=("int",), unique_col="uid", nrows=4)
+    tb = pipes.gen_table(rng, "d2", ncols=3, colnames=["a", "b", "y"], types=("int",), unique_col=None, nrows=4)
+    tc = pipes.gen_table(rng, "d2", ncols=3, colnames=["b", "c", "y"], types=("int",), unique_col=None, nrows=4)
+    TA, TB = {"op": "table", "name": "d1"}, {"op": "table", "name": "d2"}
+    for right, on in ((tb, [["a", "b"], ["b", "a"]]), (tc, [["a", "b"], ["b", "c"]]), (tb, [["a", "b"]]), (tb, ["a", ["b", "a"]]), (tc, ["b", ["a", "c"]])):
+        for jt in ("INNER", "LEFT", "RIGHT", "FULL"):
+            sj = {"op": "natural_join", "src": TA, "b": TB, "on": on, "jointype": jt}
+            try:
+                out.append(X.Case(sj, [ta, right], pipes.build(sj, {"d1": ta, "d2": right})))
+            except Exception:
+                pass
     for tab in (t, t0):
         for s in shapes:
             try:
